@@ -29,7 +29,12 @@ so entry * D is the integer numerator; deltas are integers), and the model netwo
 `contract`, proved equal to the index sum `exactValue`) with the exact spec `cosetProb` computed by the driver — on the
 REAL code's stabilizer matrix (`cosets` op) and on the model's `Planar.stabilizers` (`tncoset` op, the statement of
 theorem `planar_tn_value`).  Theorems (Props/C10/Network.lean): `factor_graph_identity` (generic) and the planar
-instance; see that file for what is proved and what is only stated.
+instance; see that file for what is proved and what is only stated.  The PROCEDURE `_coset_probabilities` runs on these
+networks (bras shared between pairs of cosets: planar MPS and rotated planar RMPS; four plain contractions: rotated planar
+MPS) is tied and proved separately: `qv/c10_shared.py` records the real `mps2d.contract` / `mps2d.transpose` /
+`mps.inner_product` calls (network object, start / stop / step, ket column) in modes c, r, a on square, tall and wide
+lattices and compares them and the four values with the model's `cosetValuesC / R / A` (driver op `tnvalues`; theorems
+`planar_tn_coset_values_c/_r/_a` etc. in Props/C10/PlanarShared.lean, RotatedPlanarShared.lean, RotatedPlanarRmpsShared.lean).
 
 Two further input classes live in helper modules run from `run` (protocol: cases(ctx), FAMILY, evaluate_input(meta)):
 `qv/c10_ybig.py` — the planar Y decoder on lattices up to 15x15 in every gcd regime, p from 1e-6 to 0.95 (coset
@@ -39,7 +44,10 @@ exact reference computed by Gaussian elimination over GF(2) (independent of the 
 `planary decode / ystabs / ylogical` of Model/PlanarY.lean; `qv/c10_hist.py` — decoder-OBJECT histories: one instance
 of every TN decoder and mode reused over pairs of lattices with equal qubit count and transposed shapes, two
 distributions and the zero + low-weight syndromes, every answer compared with the exact `cosetProb` and with a fresh
-instance.
+instance; `qv/c10_calls.py` — CALL SHAPES of `decode` (neither / only error_model / only error_probability / both,
+keyword vs positional, with the context keywords app adds) for every decoder whose decode takes the optional prior
+arguments: the prior is (supplied value or DOCUMENTED default) per argument, the recorded `prob_dist` must equal its
+distribution bit for bit and the answer is judged against the exact `cosetProb` for it.
 """
 import importlib
 import json
@@ -85,7 +93,13 @@ RULE = ('codes: planar RxC, rotated planar RxC, colour 6.6.6 with stabilizer gro
         '{lattice A, B} x {weak, strong distribution} x {zero, weight-1..2-error syndrome} in shuffled order + 3 '
         'repeats, run on ONE object per decoder configuration (quick: 6 of the 18 planar ones per pair, rotating); a '
         'step passes iff the single-call predicate holds against the exact value and the answer equals a fresh '
-        'object\'s')
+        'object\'s; call shapes: decode with neither / only error_model / only error_probability / both prior '
+        'arguments, keyword or positional (+ app context keywords), on a default-constructed object of every TN decoder '
+        'class (all 8 shapes x zero / weight-1 / adjacent-pair syndrome) and on every decoder x mode x stp configuration '
+        '(quick: the 5 partial shapes), PlanarYDecoder and (prior only) the two symmetry-matching decoders; the expected '
+        'prior is the supplied value or the documented default (Depolarizing / BitPhaseFlip, 0.1) per argument; passes '
+        'iff the prob_dist handed to the coset computation is bit-identical to that prior and the single-call '
+        'predicate holds against the exact value for it')
 
 REL_TOL = Fraction(1, 10 ** 11)
 GAP_TOL = Fraction(1, 10 ** 9)
@@ -190,9 +204,11 @@ def all_configs(fam):
     return [('Color666MPSDecoder', 'c', None)]
 
 
-def run_real(code, cfg, syndrome, dist, dec=None):
+def run_real(code, cfg, syndrome, dist, dec=None, call=None):
     """one real `decode` with its `_coset_probabilities` call recorded (recording proxy on the instance, removed
-    afterwards); `dec` = an existing decoder object to reuse (decoder-object histories), else a fresh one.
+    afterwards); `dec` = an existing decoder object to reuse (decoder-object histories), else a fresh one;
+    `call(dec, code, syndrome_array)` = how `decode` is invoked (call shapes, qv/c10_calls.py; default: both prior
+    arguments as keywords); `dist` is then the prior the documentation prescribes for that call.
     returns dict(f, ps, recs, out) — everything as plain lists / exact Fractions"""
     name, mode, stp = cfg
     if dec is None:
@@ -213,7 +229,10 @@ def run_real(code, cfg, syndrome, dist, dec=None):
     s_arg = np.array(syndrome, dtype=int)
     try:
         with core.TimeLimit(DECODE_LIMIT):
-            out = dec.decode(code, s_arg, error_model=DistModel(dist), error_probability=0.1)
+            if call is not None:
+                out = call(dec, code, s_arg)
+            else:
+                out = dec.decode(code, s_arg, error_model=DistModel(dist), error_probability=0.1)
             if 'f' not in rec:  # decode no longer goes through _coset_probabilities: observe it directly
                 proxy(tuple(float(x) for x in dist), dec.sample_recovery(code, np.array(syndrome, dtype=int)))
                 rec['direct'] = True
@@ -638,7 +657,7 @@ def y_plan(ctx):
     return P
 
 
-def run_real_y(code, syndrome, dist):
+def run_real_y(code, syndrome, dist, call=None):
     from qecsim.models.planar import PlanarYDecoder
     dec = PlanarYDecoder()
     calls = []
@@ -651,7 +670,10 @@ def run_real_y(code, syndrome, dist):
     dec._coset_probability = proxy
     try:
         with core.TimeLimit(DECODE_LIMIT):
-            out = dec.decode(code, np.array(syndrome, dtype=int), error_model=DistModel(dist), error_probability=0.1)
+            if call is not None:
+                out = call(dec, code, np.array(syndrome, dtype=int))
+            else:
+                out = dec.decode(code, np.array(syndrome, dtype=int), error_model=DistModel(dist), error_probability=0.1)
             f = np.array(dec._sample_recovery(code, np.array(syndrome, dtype=int)), dtype=int)
             ly = np.array(dec._y_logical(code), dtype=int)
             if not calls:   # decode no longer goes through _coset_probability: observe the documented steps directly
@@ -1007,10 +1029,10 @@ def evaluate_input(meta):
     return None
 
 
-NETWORK_HELPERS = ['c10_rplanar', 'c10_rmps', 'c10_color', 'c10_rprmps']
+NETWORK_HELPERS = ['c10_rplanar', 'c10_rmps', 'c10_color', 'c10_rprmps', 'c10_shared']
 # further input classes (same helper protocol: cases(ctx), FAMILY, evaluate_input(meta)): the Y decoder on large
 # lattices / extreme probabilities / every residual class, and decoder-object histories of every TN decoder
-CLASS_HELPERS = ['c10_ybig', 'c10_hist']
+CLASS_HELPERS = ['c10_ybig', 'c10_hist', 'c10_calls']
 
 
 def search(m):
@@ -1040,7 +1062,7 @@ def replay(ctx, path):
                 i['dist'] = [float(x).hex() for x in i['dist']]
             metas.append(i)
         for meta in metas:
-            mod = next((mm for mm in (importlib.import_module('qv.' + nm) for nm in CLASS_HELPERS)
+            mod = next((mm for mm in (importlib.import_module('qv.' + nm) for nm in NETWORK_HELPERS + CLASS_HELPERS)
                         if meta.get('family') == mm.FAMILY), None)
             r = mod.evaluate_input(meta) if mod is not None else evaluate_input(meta)
             print('replay', meta.get('family'), meta.get('size'), meta.get('syndrome', meta.get('sample')), '->',
